@@ -66,6 +66,7 @@ type Sched struct {
 	switches  int
 	waits     int
 	aborted   bool
+	npend     int
 	nstuck    int
 	stuckTask [MaxTasks]int
 	stuckWhat [MaxTasks]string
@@ -172,6 +173,12 @@ func (s *Sched) note(task int, point string) {
 // adopt turns goroutines announced with Spawn since the last scheduling step
 // into tasks, ordered by their stable names.
 func (s *Sched) adopt() {
+	// no announced goroutine waiting for adoption: take no lock at all (a mutex
+	// taken at every scheduling step would order every task's past before every
+	// other task's future and blind the race detector)
+	if !s.takePending() {
+		return
+	}
 	s.mu.Lock()
 	var pend []*child
 	for _, c := range s.pending {
@@ -221,6 +228,18 @@ func (s *Sched) addChild(c *child) {
 	s.names[i] = "closer:" + c.name
 	s.note(i, "spawned")
 }
+
+//go:norace
+func (s *Sched) takePending() bool {
+	if s.npend == 0 {
+		return false
+	}
+	s.npend = 0
+	return true
+}
+
+//go:norace
+func (s *Sched) notePending() { s.npend++ }
 
 // pick chooses the next task: >=0 task index, -1 all done, -2 deadlock.
 //
@@ -437,6 +456,7 @@ func (s *Sched) Spawn(key interface{}) {
 	s.mu.Lock()
 	s.pending = append(s.pending, &child{key: key})
 	s.mu.Unlock()
+	s.notePending()
 	s.wg.Add(1)
 }
 
